@@ -115,3 +115,67 @@ def is_irreducible_bruteforce(f):
         if deg(g) >= 1 and deg(g) <= n // 2 and mod(f, g) == 0:
             return False
     return True
+
+
+# --- minimal polynomials (added for C05: ppMinPoly, ppMinPolyMod) ---------------------------------
+
+def seq_generated_by(g, s):
+    """does the monic g (degree d) generate the finite bit sequence s (list, s[0] first)?
+    i.e. sum_i g_i s[j+i] = 0 for all 0 <= j < len(s) - d"""
+    d = deg(g)
+    for j in range(len(s) - d):
+        t = 0
+        for i in range(d + 1):
+            if (g >> i) & 1:
+                t ^= s[j + i]
+        if t:
+            return False
+    return True
+
+
+def minpoly_seq(s):
+    """Berlekamp-Massey over GF(2): returns (L, g) -- the linear complexity of the finite sequence s
+    (list of bits, s[0] first) and the characteristic polynomial g(x) = x^L C(1/x) of the shortest LFSR
+    found. g is the unique minimal polynomial iff 2 L <= len(s)."""
+    C, Bp, L, m = 1, 1, 0, 1          # connection polynomials as ints: bit i = c_i, c_0 = 1
+    for n in range(len(s)):
+        d = s[n]
+        for i in range(1, L + 1):
+            if (C >> i) & 1:
+                d ^= s[n - i]
+        if d == 0:
+            m += 1
+        elif 2 * L <= n:
+            T = C
+            C ^= Bp << m
+            L = n + 1 - L
+            Bp = T
+            m = 1
+        else:
+            C ^= Bp << m
+            m += 1
+    g = 0
+    for i in range(L + 1):
+        if (C >> i) & 1:
+            g |= 1 << (L - i)
+    return L, g
+
+
+def minpoly_mod(a, m):
+    """minimal polynomial of a as an element of GF(2)[x]/(m), deg m >= 1: the monic g of least degree with
+    g(a) = 0 (mod m); plain linear algebra on the powers 1, a, a^2, ..."""
+    basis = []                         # (vector, combination) with distinct leading bits, descending
+    p, d = mod(1, m), 0
+    a = mod(a, m)
+    while True:
+        v, c = p, 1 << d
+        for bv, bc in basis:
+            if v ^ bv < v:
+                v ^= bv
+                c ^= bc
+        if v == 0:
+            return c
+        basis.append((v, c))
+        basis.sort(reverse=True)
+        p = mulmod(p, a, m)
+        d += 1
